@@ -66,7 +66,7 @@ def main():
     replay = sys.argv[sys.argv.index("--replay") + 1] if "--replay" in sys.argv else None
     ck = V.Check("C03", tier)
     rng = ck.rng
-    ck.proof_leg(["Extract/Extract_modulewf.vo", "Extract/Extract_seqscan.vo"])
+    ck.proof_leg(["Extract/Extract_modulewf.vo", "Extract/Extract_seqscan.vo", "Extract/Extract_modload.vo"])
     drv = V.build_driver("c03_drv", ["c03_drv.c"])
     model = V.ocaml_build("modulewf")
     env = V.san_env()
@@ -260,6 +260,112 @@ def main():
         if r.returncode != 0:
             ck.violation({"engine": "seqscan", "broken": "sanitizer report / crash in the sequence driver", "stderr": r.stderr[-1500:]}, key="c03-seq-crash")
         ck.engine_stat("seqscan", **sst)
+    # ---- (d) the Protracker loader itself: Model/ModLoad.v (what mod_load leaves behind for an M.K. file) against the PREGATE dump of hook H1
+    if not replay or json.load(open(replay)).get("engine") == "modload":
+        gdrv = V.build_driver("c03_drv", ["c03_drv.c"]); mmodel = V.ocaml_build("modload")
+        mdir = tempfile.mkdtemp(prefix="vp-c03m-", dir="/var/tmp")
+        try:
+            if replay:
+                rpj = json.load(open(replay)); blobs = [(rpj["label"], bytes.fromhex(rpj["file_hex"]))]
+            else:
+                mk = []
+                for f in V.corpus_files():
+                    try:
+                        with open(f, "rb") as fh:
+                            hd = fh.read(1084)
+                        if len(hd) == 1084 and hd[1080:1084] == b"M.K." and os.path.getsize(f) < 90000: mk.append(f)
+                    except OSError: pass
+                blobs = []
+                for f in sorted(mk)[: (25 if tier == "quick" else 400)]:
+                    data = open(f, "rb").read(); lab = os.path.relpath(f, V.REPO)
+                    blobs.append((lab, data))
+                    npat = max([o for o in data[952:1080] if o < 128] + [0]) + 1; body = 1084 + 1024 * npat
+                    for cut in {body - 1, body, body + 1, body + 7, len(data) - 1, len(data) - 2, (body + len(data)) // 2, 1084, 1083, 600} | {rng.randrange(1084, max(1085, len(data))) for _ in range(3)}:
+                        if 0 < cut < len(data): blobs.append(("%s cut at %d" % (lab, cut), data[:cut]))
+                    for _ in range(4):
+                        b = bytearray(data); k = rng.random()
+                        i = rng.randrange(31); o = 20 + 30 * i
+                        if k < 0.4: b[o + 22:o + 24] = bytes([rng.choice((0, 0x7f, 0x80, 0xff)), rng.randrange(256)])                  # sample length
+                        elif k < 0.7: b[o + 26:o + 30] = bytes(rng.choice((0, 1, 2, 0x7f, 0xff, rng.randrange(256))) for _ in range(4))   # loop start / length
+                        elif k < 0.85: b[950:952] = bytes([rng.choice((0, 1, 127, 128, 129, 255)), rng.choice((0, 0x78, 0x7f, 1, 200))])   # song length, restart
+                        else: b[952 + rng.randrange(128)] = rng.choice((0, 127, 128, 255, rng.randrange(256)))                            # an order entry
+                        blobs.append(("%s header field edited" % lab, bytes(b)))
+                    blobs.append(("%s + trailing bytes" % lab, data + bytes(rng.randrange(256) for _ in range(rng.choice((1, 2, 9))))))
+                    blobs.append(("%s as a song file (no sample data)" % lab, data[:body]))
+            paths = []
+            for k, (lab, blob) in enumerate(blobs):
+                pth = os.path.join(mdir, "m%05d.mod" % k); open(pth, "wb").write(blob); paths.append(pth)
+            # other loaders come before the Protracker loader and may claim a file with this signature (ProWizard formats, Startrekker ...):
+            # only files that the library itself attributes to the Protracker loader are this model's business
+            tdrv = V.build_driver("c07_drv", ["c07_drv.c"])
+            tr = V.run([tdrv, "load"], inp="".join("TM %s\n" % pth for pth in paths), env=V.san_env(), timeout=3000).stdout.split("\n")
+            want_type = b"Amiga Protracker/Compatible".hex()
+            keep = [i for i, l in enumerate(tr[:len(paths)]) if l.startswith("RET 0 ") and len(l.split()) > 5 and l.split()[5] == want_type]
+            blobs = [blobs[i] for i in keep]; paths = [paths[i] for i in keep]
+            rg = V.run([gdrv, "gate"], inp="".join("- %s\n" % pth for pth in paths), env=V.san_env(), timeout=3000)
+            # split the driver's output per file: "PREGATE ..." dump (if the loader got that far) ... "RET r" [+ module dump]
+            per = []; cur = []
+            for l in rg.stdout.split("\n"):
+                cur.append(l)
+                if l.startswith("RET "): per.append(cur); cur = []
+                elif l == "ENDMOD" and per and len(per[-1]) and per[-1][0].startswith("RET") is False: pass
+            # a successful load prints its module dump after RET: attach those lines to the same record
+            recs = []; i = 0
+            lines = rg.stdout.split("\n")
+            cur = None
+            for l in lines:
+                if l.startswith("PREGATE "): cur = {"pre": [l], "ret": None}; recs.append(cur)
+                elif l.startswith("RET "):
+                    if cur is None or cur["ret"] is not None: cur = {"pre": None, "ret": None}; recs.append(cur)
+                    cur["ret"] = l.split()[1]
+                elif cur is not None and cur["ret"] is None and cur["pre"] is not None: cur["pre"].append(l)
+            mst = {"files": 0, "loader_refuses": 0, "gate_refuses": 0, "compared": 0}
+            req = []; meta = []
+            for (lab, blob), rec in zip(blobs, recs):
+                ty = b""
+                if rec["pre"]:
+                    tl = next((x for x in rec["pre"] if x.startswith("TYPE ")), "TYPE 1 -").split()
+                    try: ty = bytes.fromhex(tl[2]) if len(tl) > 2 and tl[2] != "-" else b""
+                    except ValueError: ty = b""
+                req.append("R %d %s" % (1 if (b"Protracker" in ty and b"clone" not in ty) or b"OpenMPT" in ty else 0, blob.hex())); meta.append((lab, blob, rec))
+            mo = V.run([mmodel], inp="\n".join(req) + "\n", timeout=3000).stdout.split("\n")
+            for (lab, blob, rec), mline in zip(meta, mo):
+                ck.count(); mst["files"] += 1; bad = None
+                if mline.startswith("FAIL"):
+                    mst["loader_refuses"] += 1
+                    if rec["pre"]: bad = "mod_load handed a module to the gate, the model says the loader fails"
+                elif not rec["pre"]:
+                    bad = "mod_load failed (return %s) before the gate, the model builds a module" % rec["ret"]
+                else:
+                    parts = [x.strip() for x in mline.split("|")]
+                    pre = rec["pre"]
+                    modl = next(x for x in pre if x.startswith("MOD ")).split()
+                    got_counts = " ".join(modl[1:10])
+                    got_xxo = " ".join(next((x for x in pre if x.startswith("XXO")), "XXO").split()[1:])
+                    got_ins = " ".join("%s,%s" % (x.split()[2], x.split()[3]) for x in pre if x.startswith("INS "))
+                    got_smp = " ".join(",".join(x.split()[2:7]) for x in pre if x.startswith("SMP "))
+                    npatl = sum(1 for x in pre if x.startswith("PAT ")); ntrkl = sum(1 for x in pre if x.startswith("TRK "))
+                    if parts[1] != got_counts: bad = "counts (chn len pat trk ins smp spd bpm rst): loader %s, model %s" % (got_counts, parts[1])
+                    elif parts[2] != got_xxo: bad = "order list differs"
+                    elif parts[3] != got_ins: bad = "instrument table (sub-instrument counts) differs"
+                    elif parts[4] != got_smp:
+                        a = parts[4].split(); b = got_smp.split(); j = next((j for j in range(min(len(a), len(b))) if a[j] != b[j]), -1)
+                        bad = "sample %d (len,lps,lpe,flg,data): loader %s, model %s" % (j, b[j] if j >= 0 else "?", a[j] if j >= 0 else "?")
+                    elif any(x.split()[2] != "64" for x in pre if x.startswith(("PAT ", "TRK ")) and "NULL" not in x): bad = "a pattern or track does not have 64 rows"
+                    elif parts[0] != "RAW post=1": raise V.BuildError("Model/ModLoad.v: mod_raw built a module outside loader_postb for %s: theorem mod_loader_establishes_post would be false" % lab)
+                    elif (parts[5] == "gate=REJECT") != (rec["ret"] != "0") and not (rec["ret"] != "0" and parts[5] == "gate=ok"):
+                        bad = "gate decision: load returned %s, model %s" % (rec["ret"], parts[5])
+                    if parts[5] == "gate=REJECT": mst["gate_refuses"] += 1
+                    mst["compared"] += 1
+                if bad:
+                    ck.violation({"engine": "modload", "label": lab, "file_hex": blob.hex() if len(blob) < 300000 else None, "what": bad,
+                                  "broken": "correspondence: Model/ModLoad.v (mod_raw) vs what mod_load left behind (hook H1 dump)"}, key="c03:modload:" + bad.split(":")[0][:40])
+                else: ck.nontrivial(("modload", lab))
+            if rg.returncode != 0:
+                ck.violation({"engine": "modload", "broken": "sanitizer report / crash while loading an M.K. variant", "stderr": rg.stderr[-1500:]}, key="c03-modload-crash")
+            ck.engine_stat("modload", **mst)
+        finally:
+            shutil.rmtree(mdir, ignore_errors=True)
     ck.cov["rule"] = ("every file of test-dev/data, data/m and openmpt/* loaded by path and (with XMP_SMPCTL_SKIP) through a random stream entry point; core-format modules under all 11 player modes; "
                       "structured mutants (header-field boundary values, truncations, bit flips in the first 2 KiB); every accepted module is dumped under ASan (which validates table sizes and guard frames) and public_wfb is evaluated on the dump")
     ck.assumptions += ["the dump follows every pointer of the public tables: ASan turns an under-allocated table into a crash replay",
